@@ -8,6 +8,12 @@
      swap a b            | clear s               | at s i
      find_ch s c pos     | find_str s pos c*     | find s pos t
      compare a b         | compare_str a c*
+     append_str_n s n c* | at_const s i          | data s
+   append_str_n appends the first n of the given characters (NUL allowed);
+   n beyond them is outside the domain unless the library aborts before
+   reading the source.  data prints "1" for NULL, else "0 <block> <offset>"
+   followed, when the vector holds elements, by <data[size]==NUL> and the
+   characters data[0 .. size).
    find/compare lines carry the result twice: the second number is, on the
    implementation side, what libc says on a private copy of the string.
    After the last operation every string is cleared and "fin <live blocks>"
@@ -41,6 +47,9 @@ let parse_op (w : string list) : sop option =
   | ["find"; s; p; t] -> Some (SFind (ni s, nn p, ni t))
   | ["compare"; a; b] -> Some (SCompare (ni a, ni b))
   | "compare_str" :: a :: l -> Some (SCompareStr (ni a, cs l))
+  | "append_str_n" :: s :: n :: l -> Some (SAppendStrN (ni s, nn n, cs l))
+  | ["at_const"; s; i] -> Some (SAtConst (ni s, nn i))
+  | ["data"; s] -> Some (SData (ni s))
   | _ -> None
 
 let twice (o : sop) = match o with
@@ -62,6 +71,7 @@ let run_case ~(v0 : bool) (c : case) =
     match sstep (AllocModel.script_oracle !fails !from) v0 s o with
     | Prelude.Done (s', out) ->
       st := Some s';
+      let out = (match o with SData _ -> Run_vector.take (4 + Run_vector.max_print) out | _ -> out) in
       let o2 = if twice o then zs out ^ " " ^ zs out else zs out in
       Printf.printf "ok %s %s%s\n" o2 (dump_sys v0 s') (Run_vector.events_since n0 s'.heap)
     | Prelude.Abort -> print_endline "abort"; dead := true
@@ -111,10 +121,12 @@ let explore ~v0 (width : int) (maxlen : int) (max_states : int) =
     add "insert_str 0 %s" p; add "insert_str 0 %s 98" p; add "insert_str_n 0 %s 98 0" p;
     add "insert 0 %s 1" p;
     L.iter (fun n -> add "erase 0 %s %s" p n; add "substr 0 %s %s 1" p n) (small @ huge);
-    add "at 0 %s" p;
+    add "at 0 %s" p; add "at_const 0 %s" p;
     L.iter (fun c -> add "find_ch 0 %s %s" c p) chars;
     add "find_str 0 %s" p; add "find_str 0 %s 98" p; add "find_str 0 %s 97 98" p;
     add "find 0 %s 1" p) (small @ [sm]);
+  L.iter (fun n -> add "append_str_n 0 %s 98 0 97" n) ["0"; "1"; "2"; "3"; sm; Run_vector.dec_sub sm 1];
+  add "data 0"; add "data 1";
   add "append 0 1"; add "append_ch 0 1 98"; add "append_ch 0 %s 98" sm; add "append_str 0 97";
   L.iter (fun n -> add "resize 0 %s" n) (small @ huge);
   L.iter (fun n -> add "reserve 0 %s" n) ["0"; "3"; sm; Run_vector.dec_sub sm 1];
